@@ -285,7 +285,11 @@ def run_generated(plan, env, res, tr, fail):
     pkt = pkt_cls(h=g["h"], s1=g["s1"], inner=inner_cls(a=g["a"], b=g["b"], **extra), s2=g["s2"], kind=kind, kind_data=case,
                   k=g["k"], s3=g["s3"])
     w = EoWriter()
-    pkt.write(w)
+    try:
+        pkt.write(w)
+    except Exception as e:  # noqa
+        return fail("sender-raised", "generated-serializer", f"{pkt_cls.__name__}.write of a valid packet (kind {kind}) raised "
+                    f"{type(e).__name__}: {e}", 0)
     out = bytes(w.to_bytearray())
     tr.ev("generated", g["variant"], out.hex())
     res.count("probe.generated_serializer_session")
@@ -337,7 +341,10 @@ def run_generated_roster(g, net, srv, EoWriter, EoReader, res, tr, fail):
     closing = (g["members"][0][0] * 7 + 3) % 64009
     pkt = srv.TalkRosterServerPacket(leader=mk(g["members"][0]), members=[mk(m) for m in rest], closing=closing, season=closing % 251 + 1)
     w = EoWriter()
-    pkt.write(w)
+    try:
+        pkt.write(w)
+    except Exception as e:  # noqa
+        return fail("sender-raised", "generated-serializer", f"TalkRosterServerPacket.write of a valid packet raised {type(e).__name__}: {e}", 0)
     out = bytes(w.to_bytearray())
     tr.ev("generated", "Roster", out.hex())
     res.count("probe.generated_serializer_session")
